@@ -536,6 +536,20 @@ func TestVerif_C01(t *testing.T) {
 			}
 		}
 	}
+	// (A') chunk indexes with thousands of entries ("many chunks per dimension"): 3000 chunks
+	// in one dimension, 64 x 32 chunks in two, 10 x 12 x 14 in three
+	for _, tn := range []string{"float64", "int8"} {
+		for _, ty := range types {
+			if ty.name != tn {
+				continue
+			}
+			for _, sb := range []uint8{2, 0, 3} {
+				for _, l := range []vfLayoutCase{{dims: []uint64{3000}, chunk: []uint64{1}}, {dims: []uint64{128, 64}, chunk: []uint64{2, 2}}, {dims: []uint64{10, 24, 14}, chunk: []uint64{1, 2, 1}}} {
+					cases = append(cases, vfC01Case{ty, sb, l, 0, "/d"})
+				}
+			}
+		}
+	}
 	// (B) layout-heavy grid for three element types
 	maxRank, maxElems := 3, 64
 	ext := []uint64{1, 2, 3, 5, 7}
